@@ -463,13 +463,14 @@ class SamplerCore:
         """Get distribution function (map or pool.map)."""
         if self.config.pool is None:
             return map
-        elif isinstance(self.config.pool, int) and self.config.pool <= 1:
+        elif isinstance(self.config.pool, (int, np.integer)) and self.config.pool <= 1:
             # A "pool" of one process is plain serial evaluation.
             return map
-        elif isinstance(self.config.pool, int):
+        elif isinstance(self.config.pool, (int, np.integer)):
+            # (a process count may arrive as a NumPy integer, e.g. computed from an array)
             from multiprocess import Pool
 
-            pool = Pool(self.config.pool)
+            pool = Pool(int(self.config.pool))
             return pool.map
         else:
             return self.config.pool.map
